@@ -204,8 +204,11 @@ SameTree(a, b) == a = b \/ Equiv(a, b)
 (* style: [unit: wrap every leaf in parentheses, chain: wrap and-chains inside or-chains and
    cds bodies' sub-chains, top: wrap the whole expression, negout: "not ( x )" instead of
    "( not x )" for wrapped negated leaves, rev: list minimum options in reverse, drop: always FALSE] *)
-Styles == [unit : BOOLEAN, chain : BOOLEAN, top : BOOLEAN, negout : BOOLEAN, rev : BOOLEAN, drop : {FALSE}]
-PlainStyle == [unit |-> FALSE, chain |-> FALSE, top |-> FALSE, negout |-> FALSE, rev |-> FALSE, drop |-> FALSE]
+Styles == [unit : BOOLEAN, chain : BOOLEAN, top : BOOLEAN, negout : BOOLEAN, rev : BOOLEAN, drop : {FALSE}, dneg : {FALSE}]
+PlainStyle == [unit |-> FALSE, chain |-> FALSE, top |-> FALSE, negout |-> FALSE, rev |-> FALSE, drop |-> FALSE, dneg |-> FALSE]
+(* the positive leaf b written as a double negation "not ( not ( b ) )": a negated group around a single, already
+   negated condition; such an operand is not a positive requirement any more, so the rule may become ill-formed (added after the seeded change C02-double-negation-or, which no other style reached) *)
+DnegStyle == [PlainStyle EXCEPT !.unit = TRUE, !.dneg = TRUE]
 (* negative control only: leaves out the parentheses the grammar needs *)
 DropStyle == [PlainStyle EXCEPT !.drop = TRUE]
 Wrap(toks) == <<"(">> \o toks \o <<")">>
@@ -223,6 +226,7 @@ Render(x, st, ctx) ==
                                             \o CommaList(IF st.rev THEN RevSeq(SetToSeq(x.opts)) ELSE SetToSeq(x.opts), 1)
                                             \o <<"]", ")">>
             IN  IF ~st.unit THEN not \o core
+                ELSE IF st.dneg /\ ~x.neg /\ x.k = "id" /\ x.name = "b" THEN <<"not">> \o Wrap(<<"not">> \o Wrap(core))
                 ELSE IF st.negout THEN not \o Wrap(core)
                 ELSE Wrap(not \o core)
       [] x.k = "cds" -> not \o <<"cds", "(">> \o Render(x.args[1], st, "cds") \o <<")">>
